@@ -140,6 +140,17 @@ func c05inputs(thorough bool) []c05input {
 		act["object"] = obj
 		ins = append(ins, c05input{name: fmt.Sprintf("create-1 %v", a), entry: "PostOutbox", kind: ap.Both, body: act, nObj: 1})
 	})
+	// bare objects whose 'published' is a boundary instant (the zero time, the epoch, the last second of
+	// year 9999, extreme zone offsets): copied to the wrapping Create like any other
+	for _, pub := range []string{"0001-01-01T00:00:00Z", "1970-01-01T00:00:00Z", "9999-12-31T23:59:59Z", "2018-01-02T03:04:05+14:00", "2018-01-02T03:04:05-12:00", "2000-02-29T23:59:59Z"} {
+		for _, en := range []struct {
+			e string
+			k ap.ActorKind
+		}{{"PostOutbox", ap.Both}, {"Send", ap.Both}, {"PostOutbox", ap.SocialOnly}, {"Send", ap.FederatingOnly}} {
+			obj := Doc("Note", "", "content", "c", "to", Carol, "published", pub)
+			ins = append(ins, c05input{name: fmt.Sprintf("bare-Note published=%s %s/%s", pub, en.e, en.k), entry: en.e, kind: en.k, body: obj, bare: true, nObj: 1})
+		}
+	}
 	// bare objects: the five properties + published
 	assign(5, func(a []int) {
 		for _, typ := range []string{"Note", "Article"} {
@@ -773,7 +784,7 @@ func C05(tier string) int {
 	res.Extra["history_alphabet"] = len(posts)
 	res.Extra["fault_bound_completed"] = bound
 	res.Extra["fault_scenarios"] = len(faultIns)
-	res.Rule = fmt.Sprintf("(1) inputs: Create with one object and every assignment of {absent,{x},{y,z}} to the five addressing properties of activity and object (3^10, quick: a quarter plus all bto/bcc cross pairs) with 4 attribution variants, bare Note/Article over 3^5 assignments x published x 4 entry/actor combinations, Creates with 2 (thorough 3) objects over to/bto/bcc, 9 other activity types: %d posts, judged with set semantics on the stored activity and stored objects (a sixth of them, and every re-spelled one, on an Actor that has just refused a Create carrying recipients of its own); (2) histories: explicit-state search, every sequence of up to %d posts over a %d-post alphabet (two outboxes, Send, a rejected post), each transition is a real request on a cloned application state, invariant in every state: each outbox lists exactly the returned ids, newest first, once, all stored; (3) fault sequences: %d posts (each with and without application callbacks wrapped around the default effect) x every choice of <= %d failing seam calls: nothing is handed to the transport after a failed persistence step and success is not reported; (4) 4 posts x 2 actor kinds with the endpoint scheme and the scheme of the minted ids chosen independently: the Location is the stored id at the front of the outbox; states = distinct application states of (2), transitions = requests applied", len(ins), depth, len(posts), len(faultIns), bound)
+	res.Rule = fmt.Sprintf("(1) inputs: Create with one object and every assignment of {absent,{x},{y,z}} to the five addressing properties of activity and object (3^10, quick: a quarter plus all bto/bcc cross pairs) with 4 attribution variants, bare Note/Article over 3^5 assignments x published x 4 entry/actor combinations, bare Notes whose published is a boundary instant (zero time, epoch, end of year 9999, offsets +14:00 / -12:00, a leap day), Creates with 2 (thorough 3) objects over to/bto/bcc, 9 other activity types: %d posts, judged with set semantics on the stored activity and stored objects (a sixth of them, and every re-spelled one, on an Actor that has just refused a Create carrying recipients of its own); (2) histories: explicit-state search, every sequence of up to %d posts over a %d-post alphabet (two outboxes, Send, a rejected post), each transition is a real request on a cloned application state, invariant in every state: each outbox lists exactly the returned ids, newest first, once, all stored; (3) fault sequences: %d posts (each with and without application callbacks wrapped around the default effect) x every choice of <= %d failing seam calls: nothing is handed to the transport after a failed persistence step and success is not reported; (4) 4 posts x 2 actor kinds with the endpoint scheme and the scheme of the minted ids chosen independently: the Location is the stored id at the front of the outbox; states = distinct application states of (2), transitions = requests applied", len(ins), depth, len(posts), len(faultIns), bound)
 	res.Assumptions = []string{"order and duplicates inside addressing lists are not asserted (set semantics)", "objects are not required to gain each other's recipients", "application state is cloned between history steps (the model is ours, so it can be)"}
 	return res.Finish()
 }
